@@ -523,6 +523,12 @@ def binop(I, node, op, l, r):
                              sub=("literal" if (l.unit == ONE and l.tag("isnum")) or (r.unit == ONE and r.tag("isnum"))
                                   or l.tag("ones") or r.tag("ones") else "mismatch"))
                 u = None
+                # a dimensionless LITERAL (np.ones, a number) added to a dimensioned value is reported once, above; the sum is then read in
+                # the unit of the dimensioned side, so that what is computed from it stays typed
+                lit_l = (l.unit == ONE and l.tag("isnum")) or l.tag("ones")
+                lit_r = (r.unit == ONE and r.tag("isnum")) or r.tag("ones")
+                if lit_l != lit_r:
+                    u = r.unit if lit_l else l.unit
             out.unit = u
             if ok and isinstance(l.unit, dict) and isinstance(r.unit, dict) and l.unit:
                 I.emit("typed_op", node, op=opn, unit=l.unit)
